@@ -137,6 +137,7 @@ fn fin_op() -> impl Strategy<Value = FinOp> {
         2 => sel().prop_map(FinOp::TryUnwrap),
         2 => sel().prop_map(FinOp::FinalizeAgain),
         1 => Just(FinOp::NewCyclic),
+        4 => ((0u8..2), (0u8..4)).prop_map(|(ws, s)| FinOp::UpgradeOwnWeakInto(ws, s)),
     ]
 }
 
